@@ -101,7 +101,38 @@ Theorem C46_git_nested_git_safe :
 Proof. exact git_nested_git_safe. Qed.
 Print Assumptions C46_git_nested_git_safe.
 
-(* "never a nested branch" is FALSE: three machine-checked witnesses (all replayed on the real code) *)
+(* control directories of OTHER version control systems (finding C46-foreign-control-dir, repaired
+   in /repo by b06b6de: iter_deletables skips every extra whose basename is a control filename of any
+   registered format).  Nothing whose basename is .bzr or .git is ever deletable, bzr and git trees: *)
+Theorem C46_foreign_control_dirs_safe :
+  forall fl o ign t vs p,
+    In p (deletables fl o ign t vs) -> is_control_name (last_name p) = false.
+Proof. exact control_names_never_deletable. Qed.
+Print Assumptions C46_foreign_control_dirs_safe.
+
+(* ... hence, in a bzr tree, an unversioned .git/.bzr entry directly inside the root or a versioned
+   directory survives with everything below it *)
+Theorem C46_foreign_control_dirs_kept :
+  forall o ign t vs d c q,
+    wf_node t = true -> parent_closed vs ->
+    (d = [] \/ versioned vs d = true) ->
+    is_control_name c = true -> versioned vs (d ++ [c]) = false ->
+    is_prefix (d ++ [c]) q = true ->
+    kind_at q (clean Bzr o ign t vs) = kind_at q t.
+Proof. exact foreign_control_safe_bzr. Qed.
+Print Assumptions C46_foreign_control_dirs_kept.
+
+(* the former witness (root with .bzr, .git/HEAD and a versioned f): .git is still an extra, and
+   `--unknown` now leaves the tree as it is *)
+Example C46_foreign_control_witness_now_safe :
+  wf_node coloc_tree = true /\ parent_closed coloc_vs /\
+  In [n_git] (extras Bzr coloc_tree coloc_vs) /\
+  clean Bzr only_unknown [] coloc_tree coloc_vs = coloc_tree.
+Proof.
+  destruct coloc_now_safe as (H1 & H2 & H3). repeat split; auto. exact coloc_parent_closed.
+Qed.
+
+(* "never a nested branch" is still FALSE: two machine-checked witnesses (both replayed on the real code) *)
 (* 1. bzr tree, branch at depth 2 below an unknown directory: u/n/.bzr is deleted with `--unknown` *)
 Theorem C46_nested_branch_deep_refuted :
   exists t vs u n,
@@ -114,18 +145,7 @@ Proof.
 Qed.
 Print Assumptions C46_nested_branch_deep_refuted.
 
-(* 2. bzr tree whose root (a versioned directory) also holds a .git: the .git is deleted as "unknown" *)
-Theorem C46_foreign_control_refuted :
-  exists t vs,
-    wf_node t = true /\ parent_closed vs /\
-    (exists cs, lookup [] t = Some (Dir cs) /\ has_control cs = true) /\
-    kind_at [n_git] (clean Bzr only_unknown [] t vs) = None.
-Proof.
-  exists coloc_tree, [([[102]], false)]%N. destruct foreign_refuted as (H1 & H2 & H3 & H4). auto.
-Qed.
-Print Assumptions C46_foreign_control_refuted.
-
-(* 3. git tree with a nested bzr branch at depth 1: its control files are deleted one by one *)
+(* 2. git tree with a nested bzr branch at depth 1: its control files are deleted one by one *)
 Theorem C46_git_nested_bzr_refuted :
   exists t n,
     wf_node t = true /\
